@@ -1,6 +1,6 @@
 (* helpers.ShutdownHelper: the shutdown gate every executor wraps its submit() in, and the
    first-shutdown-wins flag.  Any number of threads.  Model + proofs (small). *)
-From Coq Require Import List Bool Arith Lia.
+From Coq Require Import List Bool Arith ZArith Lia.
 From ME Require Import Base.Machine.
 Import ListNotations.
 
@@ -113,3 +113,25 @@ Fixpoint shutdown_calls (depth : nat) (already : nat -> bool) (k : nat) : list n
   end.
 Lemma shutdown_calls_fresh depth k : shutdown_calls depth (fun _ => false) k = seq k depth.
 Proof. revert k; induction depth as [|d IH]; intros k; simpl; [reflexivity|]. rewrite IH. reflexivity. Qed.
+
+(* ---- wire format + verdict for the correspondence runner (harness/p_c11g.py) ------------------ *)
+Local Open Scope Z_scope.
+Definition zn (z : Z) : nat := Z.to_nat z.
+Definition decode (l : list Z) : option ev :=
+  match l with
+  | [0; t] => Some (CallSubmit (zn t))
+  | [1; t] => Some (CallShutdown (zn t))
+  | [2; t] => Some (Acq (zn t))
+  | [3; t; c] => Some (Rel (zn t) (zn c))
+  | _ => None
+  end.
+Fixpoint decode_all (ls : list (list Z)) : option (list ev) :=
+  match ls with
+  | [] => Some []
+  | l :: r => match decode l, decode_all r with Some e, Some es => Some (e :: es) | _, _ => None end
+  end.
+Definition accept (ls : list (list Z)) : list Z :=
+  match decode_all ls with
+  | None => [-2]
+  | Some es => match first_reject step init es 0 with None => [-1] | Some i => [Z.of_nat i] end
+  end.
